@@ -108,6 +108,30 @@ def classify_sized(ctx, ci, fi, kind):
     paths = w.paths(fi.node, cls=ci)
     ctx.unit('paths', len(paths))
     good = 0
+    import re as _re
+    flagged = set()
+    for p in paths:
+        if not p.raises():
+            continue
+        # a sized read fails only when fewer bytes than the declared size remain: a rejection decided
+        # by the cursor and the input length alone (whatever the size) also rejects the empty value
+        # at the very end of the input
+        for g0, pol in p.guards:
+            g = g0 if pol else negate(g0)
+            t = canon(g)
+            if 'len(raw)' not in t or t in flagged:
+                continue
+            mm = _re.match(r'^\((.*) (<=|<) 0\)$', t)
+            if not mm:
+                continue
+            try:
+                f_ = lin(ast.parse(mm.group(1), mode='eval').body)
+            except SyntaxError:
+                continue
+            keys = {str(k_) for k_ in f_ if k_ != 1 and str(k_) not in ('1',)}
+            if keys and keys <= {'len(raw)', 'offset'}:
+                flagged.add(t)
+                ctx.violation(rule, fi, '[%s] %s: raise when %s' % (kind, fi.qual, t), 'the read is rejected by the position of the cursor alone, whatever the declared size: a field of size 0 at the very end of the input (an empty value) fails instead of yielding b\'\'', fi.node.lineno, clause='b', witness=True)
     for p in paths:
         if p.raises():
             continue
@@ -589,4 +613,8 @@ def check(ctx):
     ctx.floor('(include, consume, window) paths', nflag, 10)
     from ..model import check_conf_plumbing
     check_conf_plumbing(ctx, 'C06-conf-plumbing', 'search_buffer_length')
+    # a size given as a field expression is the value of that expression: the evaluator applies
+    # every operator to its operands in the declared order (C09 d)
+    from .c09 import check_exec
+    check_exec(ctx)
     ctx.trust(*ASSUMPTIONS)
